@@ -187,25 +187,32 @@ def units(tier):
     ranges = [(2 ** e2, 2 ** (e2 + 1)) for e2 in range(0, 31)]
     ranges += [(2 ** 31, 2767045208), (2767045207, 4102444800)]   # top binade, cut where the FILETIME value crosses 2^57
     return [Unit("a.attributes", M, "attributes", {}, 900), Unit("c.writeall_dispatch", M, "writeall_dispatch", {}, 600)] + [
-        Unit("d.metadata_applied[%s]" % k, M, "metadata_applied", dict(kind=k), 900) for k in "fed"] + [
+        Unit("d.metadata_applied[%s]" % k, M, "metadata_applied", dict(kind=k), 900) for k in ("f", "e", "d", "fl", "dl")] + [
         Unit("b.mtime_roundtrip[%d..%d]" % (a, b), M, "mtime_roundtrip", dict(lo=a, hi=b), 900) for (a, b) in ranges]
 
 
 # ---------------------------------------------------------------- d. permissions and mtime end to end
-def metadata_applied(kind, intmode="bv"):
+def metadata_applied(kind, intmode="int"):
     """source st_mode --real _make_file_info--> attribute word --reference-written archive, real reader--> real _extract
-    post-pass on the filesystem model: chmod gets the source's permission bits, utime gets the stored FILETIME"""
+    post-pass on the filesystem model: chmod gets the source's permission bits, utime gets the stored FILETIME.
+    kind: 'f' file, 'e' empty file, 'd' directory; a trailing 'l' adds a symbolic link 'lnk' -> 'm' stored after it"""
+    import zlib
+
     from vf.harness import extract as X
     from vf.harness import fakefs as F
     from vf.harness import readcases as RC
+    from vf.harness import refwriter as W
 
-    r = ObResult(bounds="one member of kind %r (f file, e empty file, d directory) next to nothing else; all 12 permission bits, "
+    with_link = kind.endswith("l")
+    k0 = kind[0]
+    r = ObResult(bounds="one member 'm' of kind %r (f file, e empty file, d directory)%s; all 12 permission bits, "
                         "size, CRC and FILETIME symbolic, mtime defined or not; extraction into an empty directory on the "
-                        "filesystem model" % kind)
+                        "filesystem model" % (k0, ", followed by a symbolic link member 'lnk' -> 'm'" if with_link else ""))
     eng = RC.mk_engine(unroll=1, intmode=intmode)
     eng.overrides[(HP, "ArchiveTimestamp.from_datetime")] = lambda e, v: 0
     perm = eng.sym_int("perm", 12)
     ft = eng.sym_int("filetime", 63)
+    lft = eng.sym_int("link_filetime", 63)
     size = eng.sym_int("size", 30)
     crc = eng.sym_int("crc", 32)
     has_mtime = z3.Bool("mtime_defined")
@@ -221,24 +228,28 @@ def metadata_applied(kind, intmode="bv"):
         fs = F.FS()
         for loc in [("/", "base"), ("/", "base", "jail")]:
             fs.nodes[loc] = ("dir",)
-        typ = stat.S_IFDIR if kind == "d" else stat.S_IFREG
+        typ = stat.S_IFDIR if k0 == "d" else stat.S_IFREG
         mode = e.binop(ast.BitOr(), typ, perm)
         cls = e.cls(PZ, "SevenZipFile")
         fi = e.call_function(cls.find("_make_file_info")[1], [_Path(mode, mode, 0), "m", False])
         attr = fi["attributes"]
         F.install(e, fs, "/base/jail")
-        if kind == "f":
+        if k0 == "f":
             e.assume(e.compare(ast.Gt(), size, 0))
         defined = e.branch(has_mtime)
-        entries = [dict(kind=kind, name="m", size=(size if kind == "f" else 0), crc=(crc if kind == "f" else 0),
+        entries = [dict(kind=k0, name="m", size=(size if k0 == "f" else 0), crc=(crc if k0 == "f" else 0),
                         mtime=(ft if defined else None), attributes=attr)]
-        nd = 1 if kind == "f" else 0
-        layout = dict(folders=[1] if nd else [], ncoders=[1] if nd else [], packsizes=[e.sym_int("pack", 30)] if nd else [],
+        if with_link:
+            entries.append(dict(kind="l", name="lnk", size=1, crc=zlib.crc32(b"m"), mtime=(lft if defined else None),
+                                attributes=W.default_attributes("l")))
+        nd = sum(1 for en in entries if en["kind"] in "fl")
+        layout = dict(folders=[nd] if nd else [], ncoders=[1] if nd else [], packsizes=[e.sym_int("pack", 30)] if nd else [],
                       crc_at="sub", coder_ids=[b"\x00"])
         try:
             z, fp, w = X.setup_read(e, entries, layout, consume="all-at-once")
         except ModelRaise as ex:
             return dict(exc="open:" + ex.name)
+        e.decode_hook = lambda e_, b: "m"      # the decoded text of the (only) link member
         e.class_models[("py7zr.helpers", "ArchiveTimestamp")] = lambda e_, x: TS(e_.models._int(e_, x))
         try:
             e.method(z, "extractall", F.FakePath(fs, "/base/jail", "/base/jail"))
@@ -246,6 +257,7 @@ def metadata_applied(kind, intmode="bv"):
             return dict(exc=ex.name + str(ex.eargs)[:80])
         finally:
             e.class_models[("py7zr.helpers", "ArchiveTimestamp")] = lambda e_, x: e_.models._int(e_, x)
+            e.decode_hook = None
         return dict(fs=fs, defined=defined, attr=attr)
 
     def post(o):
@@ -254,17 +266,22 @@ def metadata_applied(kind, intmode="bv"):
         fs = o["fs"]
         loc = ("/", "base", "jail", "m")
         times, modes = fs.__dict__.get("times", {}), fs.__dict__.get("modes", {})
-        c = [fs.kind(loc) == ("dir" if kind == "d" else "file")]
+        c = [fs.kind(loc) == ("dir" if k0 == "d" else "file")]
         c.append(loc in modes and eng.compare(ast.Eq(), modes[loc], perm))
         if o["defined"]:
             t = times.get(loc)
             c.append(t is not None and isinstance(t[0], tuple) and t[0][0] == "ts" and t[1] == t[0] and eng.compare(ast.Eq(), t[0][1], ft))
         else:
             c.append(loc not in times)
+        if with_link:
+            lloc = ("/", "base", "jail", "lnk")
+            c.append(fs.nodes.get(lloc) == ("link", "m"))
+        # no other location is stamped
+        c.append(set(modes) <= {loc} and set(times) <= {loc})
         c.append(all(l[:3] == ("/", "base", "jail") for (op, l) in fs.effects))
         return c
 
-    decide(eng, harness, post, {"perm": perm, "filetime": ft, "size": size, "crc": crc, "mtime_defined": has_mtime}, r,
+    decide(eng, harness, post, {"perm": perm, "filetime": ft, "link_filetime": lft, "size": size, "crc": crc, "mtime_defined": has_mtime}, r,
            describe=lambda o: o.get("exc") or "%d effects" % len(o["fs"].effects))
     _cex(r, "metadata_applied", lambda w: dict(module="vf.props.c02", func="replay_metadata", kwargs=dict(
         kind=kind, perm=int(w.get("perm", 0)), filetime=int(w.get("filetime", 0)), defined=bool(w.get("mtime_defined", False)))),
@@ -281,11 +298,14 @@ def replay_metadata(kind, perm, filetime, defined):
 
     import py7zr
 
+    with_link, kind = kind.endswith("l"), kind[0]
     d = tempfile.mkdtemp(prefix="vf_c02m_")
     try:
         src = os.path.join(d, "src")
         os.mkdir(src)
         p = os.path.join(src, "m")
+        if with_link:
+            os.symlink("m", os.path.join(src, "lnk"))
         if kind == "d":
             os.mkdir(p)
         else:
@@ -303,6 +323,8 @@ def replay_metadata(kind, perm, filetime, defined):
                 os.chmod(p, perm)
                 try:
                     z.write(p, "m")
+                    if with_link:
+                        z.write(os.path.join(src, "lnk"), "lnk")
                 except PermissionError:
                     return False, "source not readable with mode %o (cannot replay natively)" % perm
         finally:
@@ -315,6 +337,8 @@ def replay_metadata(kind, perm, filetime, defined):
             return True, "extraction failed: %r" % (e,)
         st = os.lstat(os.path.join(out, "m"))
         got = stat.S_IMODE(st.st_mode)
+        if with_link and (not os.path.islink(os.path.join(out, "lnk")) or os.readlink(os.path.join(out, "lnk")) != "m"):
+            return True, "link not reproduced"
         try:
             os.chmod(os.path.join(out, "m"), 0o700)
         except OSError:
